@@ -39,13 +39,14 @@ type c20Case struct {
 // docFor builds a document that names its goroutine, so that any cross-talk shows up in the content.
 func docFor(g, size, salt int) []byte {
 	var b bytes.Buffer
-	n := []int{3, 40, 160, 400}[size%4] // the last two are beyond the 8 KiB concurrent-pipeline threshold
-	b.WriteString(`{"goroutine":` + strconv.Itoa(g) + `,"salt":` + strconv.Itoa(salt) + `,"items":[`)
+	n := []int{3, 40, 160, 400, 2200}[size%5] // 160 and 400 are beyond the 8 KiB concurrent-pipeline threshold; 2200 items need more index buffers than the stage-1/stage-2 channel holds
+	// (keys of equal length that differ between goroutines: whatever is cached or pooled per key length shows)
+	b.WriteString(`{"goroutine":` + strconv.Itoa(g) + `,"key-g` + fmt.Sprintf("%02d", g%100) + `":` + strconv.Itoa(g) + `,"salt":` + strconv.Itoa(salt) + `,"items":[`)
 	for i := 0; i < n; i++ {
 		if i > 0 {
 			b.WriteByte(',')
 		}
-		b.WriteString(`{"id":"g` + strconv.Itoa(g) + `-` + strconv.Itoa(i) + `","v":` + strconv.Itoa(g*100000+i) + `,"f":` + strconv.Itoa(i) + `.5,"s":"esc\n` + strconv.Itoa(g) + `"}`)
+		b.WriteString(`{"id":"g` + strconv.Itoa(g) + `-` + strconv.Itoa(i) + `","v":` + strconv.Itoa(g*100000+i) + `,"f":` + strconv.Itoa((i*7+g*13)%1000) + `.` + strconv.Itoa((g+i)%10) + `5,"s":"esc\n` + strconv.Itoa(g) + `","k` + strconv.Itoa(g%10) + `":null}`)
 	}
 	b.WriteString(`]`)
 	if salt%3 != 2 {
@@ -312,7 +313,11 @@ func genProgram(t *rapid.T, zstdPressure bool) []c20Step {
 	p = append(p, c20Step{Op: "parse", Size: rapid.IntRange(0, 3).Draw(t, "size0"), Copy: rapid.Bool().Draw(t, "copy0")})
 	for i := 0; i < n; i++ {
 		op := []string{"parse", "parseND", "stream", "traverse", "cloneEdit", "serialize", "serialize", "deserialize", "deserialize", "gc", "traverse", "parseBad"}[rapid.IntRange(0, 11).Draw(t, "op")]
-		s := c20Step{Op: op, Size: rapid.IntRange(0, 3).Draw(t, "size"), Copy: rapid.Bool().Draw(t, "copy"), Mode: rapid.IntRange(0, 3).Draw(t, "mode"), Re: rapid.Bool().Draw(t, "re")}
+		sz := rapid.IntRange(0, 3).Draw(t, "size")
+		if rapid.IntRange(0, 11).Draw(t, "huge") == 0 {
+			sz = 4
+		}
+		s := c20Step{Op: op, Size: sz, Copy: rapid.Bool().Draw(t, "copy"), Mode: rapid.IntRange(0, 3).Draw(t, "mode"), Re: rapid.Bool().Draw(t, "re")}
 		if zstdPressure && op == "serialize" {
 			s.Mode = 3
 		}
